@@ -170,6 +170,10 @@ def main(argv=None):
                     continue
                 records.append((src, rec_))
                 nrec += rec_.get("n", 0)
+        if hasattr(mod, "case_records"):
+            for rec_ in mod.case_records(r):
+                records.append((src, rec_))
+                nrec += rec_.get("n", 0)
         con = gen.get("contracts") or {}
         for v in con.get("violations", []):
             if v["contract"].startswith(prop + "."):
